@@ -1686,6 +1686,9 @@ func (pc *PartitionContext) moveTerminatedApp(appID string) {
 			zap.String("appID", appID))
 		return
 	}
+	// an application that terminates by itself (a failing gang application) can still have asks, with reservations
+	// on nodes and in the queue: remove them while the application is still linked to its queue
+	_ = app.RemoveAllocationAsk("")
 	app.UnSetQueue()
 	// new ID as completedApplications map key, use negative value to get a divider
 	newID := appID + strconv.FormatInt(-(time.Now()).Unix(), 10)
